@@ -10,7 +10,8 @@
 //	      minInterval value, then the Daemon service will wait until at least that interval has passed" -
 //	      time.NewTimer(0) (399) fires at once and its tick is never read; with a go.mod below go 1.23 (this library:
 //	      go 1.20) timer.Reset does not drain the channel, so the first select (415) takes the stale tick: the FIRST
-//	      restart is immediate whatever minInterval is.                 (fixes/srv-daemon-drain-initial-tick.diff)
+//	      restart is immediate whatever minInterval is.  (No patch proposed: srv's own TestDaemon/CloseTriggers and
+//	      /ShutdownTriggers rely on that immediate first restart.)
 //
 // No timing decides anything here: D2 uses an interval of one hour and counts base runs after the first one
 // returned; the pauses only give goroutines time to settle before the counters are printed.
